@@ -31,7 +31,7 @@ static uint64_t drv_s;
 static unsigned drv_below(unsigned n) { drv_s ^= drv_s << 13; drv_s ^= drv_s >> 7; drv_s ^= drv_s << 17; return n ? (unsigned) ((drv_s >> 11) % n) : 0; }
 
 /* counters of what the derived sources contained (read by the harness for its "# derived" plan comment) */
-static unsigned long drv_made, drv_with_memcache, drv_dropped_pu, drv_dropped_node, drv_allow_refused, drv_v2, drv_two_level_memcache, drv_retyped, drv_retyped_cpuless, drv_misc;
+static unsigned long drv_made, drv_with_memcache, drv_dropped_pu, drv_dropped_node, drv_allow_refused, drv_v2, drv_two_level_memcache, drv_retyped, drv_retyped_cpuless, drv_misc, drv_rmorder;
 
 static void drv_clear_env(void) {
   unsetenv("HWLOC_FSROOT"); unsetenv("HWLOC_CPUID_PATH"); unsetenv("HWLOC_COMPONENTS"); unsetenv("HWLOC_DUMPED_HWDATA_DIR");
@@ -116,6 +116,7 @@ static char *drv_make_xml(const char *arg, int *lenp) {
   drv_s = sub * 0x9E3779B97F4A7C15ULL + 777; if (!drv_s) drv_s = 1;
   hwloc_topology_t t0; char *xml = NULL, *copy = NULL; int len = 0, err = 0;
   unsigned long long retype_gp = 0; const char *retype_name = NULL; int want_retype = 0, retype_cpuless = 0;
+  hwloc_obj_t rmorder_c = NULL, rmorder_n = NULL;
   drv_clear_env();
   if (hwloc_topology_init(&t0) < 0) return NULL;
   for (int ty = 0; ty < HWLOC_OBJ_TYPE_MAX; ty++)
@@ -168,6 +169,27 @@ static char *drv_make_xml(const char *arg, int *lenp) {
         }
       }
     }
+    {
+      /* remove_empty order (A1): about one source in five gets a parent P one of whose normal children C (all its PUs disallowed) AND one of
+       * whose NUMA nodes (disallowed) will both be unlinked by remove_empty, each with a Misc child: the Misc lists are appended to P's in the
+       * order in which remove_empty visits the children.  Own random state, so that every other choice of an existing plan line is unchanged. */
+      uint64_t s2 = sub * 0xD1B54A32D192ED03ULL + 4242; if (!s2) s2 = 1;
+#define DRV2(n) (s2 ^= s2 << 13, s2 ^= s2 >> 7, s2 ^= s2 << 17, (unsigned) ((s2 >> 11) % (n)))
+      if (nnodes > 0 && DRV2(5) == 0) {
+        hwloc_obj_t n = hwloc_get_obj_by_type(t0, HWLOC_OBJ_NUMANODE, DRV2((unsigned) nnodes));
+        hwloc_obj_t P = n ? n->parent : NULL;
+        if (P && hwloc_obj_type_is_normal(P->type) && P->arity >= 2 && hwloc_bitmap_weight(ns) > 1) {
+          hwloc_obj_t C = P->children[DRV2(P->arity)];
+          if (C && C->cpuset && !hwloc_bitmap_isequal(C->cpuset, cs)) {
+            hwloc_bitmap_andnot(c2, c2, C->cpuset);
+            hwloc_bitmap_clr(n2, n->os_index);
+            rmorder_c = C; rmorder_n = n;
+            if (DRV2(2)) { hwloc_obj_t leaf = C; while (leaf->first_child) leaf = leaf->first_child; rmorder_c = leaf; }
+          }
+        }
+      }
+#undef DRV2
+    }
     if (hwloc_bitmap_isequal(c2, cs) && hwloc_bitmap_isequal(n2, ns)) {
       int w = hwloc_bitmap_weight(cs);
       if (w > 1) { int k = (int) drv_below((unsigned) w), b = hwloc_bitmap_first(cs); while (k-- > 0) b = hwloc_bitmap_next(cs, b); hwloc_bitmap_clr(c2, b); }
@@ -195,6 +217,11 @@ static char *drv_make_xml(const char *arg, int *lenp) {
       if (o->arity == 1 && drv_below(4)) { snprintf(nmbuf, sizeof nmbuf, "drv-misc-%u-child", k); if (hwloc_topology_insert_misc_object(t0, o->first_child, nmbuf)) drv_misc++; }
       if (o->memory_first_child && !drv_below(3)) { snprintf(nmbuf, sizeof nmbuf, "drv-misc-%u-mem", k); if (hwloc_topology_insert_misc_object(t0, o->memory_first_child, nmbuf)) drv_misc++; }
     }
+  }
+  if (rmorder_c && rmorder_n) {
+    if (hwloc_topology_insert_misc_object(t0, rmorder_c, "drv-rmorder-c")) drv_misc++;
+    if (hwloc_topology_insert_misc_object(t0, rmorder_n, "drv-rmorder-m")) drv_misc++;
+    drv_rmorder++;
   }
   int has_msc = hwloc_get_nbobjs_by_type(t0, HWLOC_OBJ_MEMCACHE) > 0;
   if (has_msc) drv_with_memcache++;
